@@ -372,6 +372,7 @@ type Agg struct {
 	abort      bool
 	truncated  int
 	hangs      int
+	extKills   map[[2]int64]int
 	Notes      []string
 	Start      time.Time
 	Plan       *Plan
@@ -695,10 +696,37 @@ func (a *Agg) workerLoop(w int, plan *Plan, take func() (chunk, bool), mu *sync.
 			idx, _ := p.progress()
 			stderr := p.errBuf.String()
 			p.cmd.Wait()
+			// A worker that received SIGKILL which this process did not send, and that left no Go
+			// fatal error or panic behind, was killed from outside (the kernel's OOM killer while
+			// other jobs share the machine): that says nothing about the case. The case is run
+			// again in a fresh worker; only a third death in a row is reported.
+			external := false
+			if ps := p.cmd.ProcessState; !hang && ps != nil {
+				ws, _ := ps.Sys().(syscall.WaitStatus)
+				external = ws.Signaled() && ws.Signal() == syscall.SIGKILL && !strings.Contains(stderr, "fatal error:") && !strings.Contains(stderr, "panic:")
+			}
 			os.Remove(p.progF)
 			p = nil
 			if idx < ch.lo || idx >= ch.hi {
 				idx = ch.lo
+			}
+			if external {
+				rk := [2]int64{int64(ch.space), idx}
+				mu.Lock()
+				if a.extKills == nil {
+					a.extKills = map[[2]int64]int{}
+				}
+				a.extKills[rk]++
+				n := a.extKills[rk]
+				if n <= 2 {
+					a.Notes = append(a.Notes, fmt.Sprintf("worker %d killed from outside (SIGKILL, no Go crash output) at space %s index %d; case re-run", w, plan.Spaces[ch.space].Name, idx))
+				}
+				mu.Unlock()
+				if n <= 2 {
+					ch.lo = idx
+					time.Sleep(3 * time.Second)
+					continue
+				}
 			}
 			sp := &plan.Spaces[ch.space]
 			class := "crash"
